@@ -196,7 +196,10 @@ Definition att_outcome (a : att) : option outcome :=
 
 (* ---- proxied mode: proxyRequestOnStream / dialProxy / proxyRequestDial ---- *)
 
-Inductive preply := PrOk | PrFail (msg : bytes) | PrUnsupported | PrUnreadable.
+(* [PrOk echo]: {Result:true}; echo = the string value of a ClaimId attribute the
+   reply happens to carry (any other extra attribute is equally irrelevant).  The
+   requester never consults it: the hello is checked against the id it generated. *)
+Inductive preply := PrOk (echo : option bytes) | PrFail (msg : bytes) | PrUnsupported | PrUnreadable.
 
 (* the broker connection is returned only after {Result:true} and the matching hello *)
 Definition proxy_request (id : bytes) (rep : preply) (hello : greeting) : option att_err :=
@@ -204,7 +207,7 @@ Definition proxy_request (id : bytes) (rep : preply) (hello : greeting) : option
   | PrUnreadable => Some AeBrokerRead
   | PrFail m => Some (AeProxyRefused m)
   | PrUnsupported => Some AeProxyUnsupported
-  | PrOk =>
+  | PrOk _ =>
       match hello with
       | GHello cmd c =>
           if Z.eqb cmd ccb_reverse_connect
